@@ -105,9 +105,50 @@ def _odd_int(code, value):
     return None
 
 
+def _check_constant_predicates(c, want, where):
+    """is_*_constant(value[, width]) answer True exactly for the constant's own kind / value /
+    width - including the falsy values 0, False and "" """
+    kind = want[0]
+    v = want[1]
+    if kind == "int":
+        others = [0, 1, -1, v + 1]
+    elif kind == "real":
+        others = [Fraction(0), Fraction(1), v + 1, v / 2 if v else Fraction(1, 2)]
+    elif kind == "bv":
+        others = [0, 1, v + 1]
+    elif kind == "str":
+        others = ["", "a", v + "x"]
+    else:
+        others = [True, False]
+    pred = {"int": c.is_int_constant, "real": c.is_real_constant, "bv": c.is_bv_constant,
+            "str": c.is_string_constant, "bool": c.is_bool_constant}[kind]
+    facts = [("is_%s_constant()" % kind, pred(), True), ("is_%s_constant(own value)" % kind, pred(v), True)]
+    for o_ in others:
+        facts.append(("is_%s_constant(%r)" % (kind, o_), pred(o_), o_ == v))
+    for k2, p2 in (("int", c.is_int_constant), ("real", c.is_real_constant), ("bv", c.is_bv_constant),
+                   ("str", c.is_string_constant), ("bool", c.is_bool_constant)):
+        if k2 != kind:
+            facts.append(("is_%s_constant()" % k2, p2(), False))
+    if kind == "bv":
+        w = want[2]
+        facts += [("is_bv_constant(v, w)", c.is_bv_constant(v, w), True),
+                  ("is_bv_constant(value=0, width=w)", c.is_bv_constant(value=0, width=w), v == 0),
+                  ("is_bv_constant(v, w+1)", c.is_bv_constant(v, w + 1), False),
+                  ("is_bv_constant(width=w)", c.is_bv_constant(width=w), True),
+                  ("is_bv_constant(width=w+1)", c.is_bv_constant(width=w + 1), False)]
+    if kind in ("int", "real"):
+        facts += [("is_zero()", c.is_zero(), v == 0), ("is_one()", c.is_one(), v == 1)]
+    if kind == "bool":
+        facts += [("is_true()", c.is_true(), v is True), ("is_false()", c.is_false(), v is False)]
+    bad = [(n, got) for n, got, exp in facts if bool(got) != bool(exp)]
+    if bad:
+        raise Violation("C04:accessor:constant-predicate", "%s: constant %s answers %s" % (where, want, bad))
+
+
 def _check_constant_accessors(c, want, where):
     """every accessor of a shared constant reports the value itself, in its plain type and text,
     whichever spelling reached the manager first"""
+    _check_constant_predicates(c, want, where)
     if want[0] == "int":
         v = c.constant_value()
         if type(v) is not int or repr(v) != repr(want[1]) or c.serialize() != str(want[1]):
@@ -184,6 +225,8 @@ def build_route(t, env, route, spell, varargs):
         if op in bp.QUANT:
             vs = [mgr.Symbol(n, bp.to_pysmt_type(s_, env)) for n, s_ in t[1]]
             body = build_route(t[2], env, route, spell, varargs)
+            # the binders as any iterable: list, tuple, one-shot iterator, generator
+            vs = [vs, tuple(vs), iter(vs), (v for v in vs)][spell % 4]
             return mgr.ForAll(vs, body) if op == "forall" else mgr.Exists(vs, body)
         if op == "app":
             f = mgr.Symbol(t[1], bp.to_pysmt_type(["Fun", t[2], t[3]], env))
@@ -274,6 +317,10 @@ def build_route(t, env, route, spell, varargs):
         except Exception:
             raise
     # manager route (and fallback): rebuild this node from the already-built children
+    if op in ("and", "or", "+", "*") and not varargs and spell >= 2:
+        # the arguments as a one-shot iterable
+        ctor = {"and": mgr.And, "or": mgr.Or, "+": mgr.Plus, "*": mgr.Times}[op]
+        return ctor(iter(a)) if spell == 2 else ctor(x for x in a)
     return _mgr_node(mgr, t, a, env)
 
 
